@@ -34,6 +34,9 @@ func propC09(a *Analysis, r *Registry) {
 		}
 	}
 	b.CheckSwap("C-swap", "stats.(*sampleSorter).Swap")
+	// the order handed to sort.Sort: ascending by value, over all the values
+	b.Formula(rB, "stats.(*sampleSorter).Less", "stats.(*sampleSorter).Less", []string{"p", "i", "j"}, nil, 0, "p.xs[i]<p.xs[j]", nil)
+	b.Formula(rB, "stats.(*sampleSorter).Len", "stats.(*sampleSorter).Len", []string{"p"}, nil, 0, "len(p.xs)", nil)
 	if fn := b.Fn(rB, "stats.(*Sample).Sort"); fn != nil {
 		b.guard(rB, "stats.(*Sample).Sort", func() {
 			fc := X.FCFor(fn)
